@@ -533,6 +533,16 @@ func tailCallsFamily(budget time.Duration) mc.Family {
 		prog{"errordict /typecheck { stop } put mark 1 (a) add 5", "-mark- 1 (a)"},
 		prog{"errordict /stackunderflow { exit } put 1 2 5 { pop } repeat 7", "7"},
 	)
+	// `stop` ends the program it is in, not the interpreter: the next Execute call runs normally;
+	// `bind` looks at the procedure as it is now, whatever an earlier bind has seen
+	progs = append(progs,
+		prog{"1 stop 2 ¦ 3 4 add", "1 7"},
+		prog{"/a 1 def { { stop } exec } exec 9 ¦ a a add ¦ a", "2 1"},
+		prog{"5 { stop } repeat ¦ exit", "ERROR invalidexit"},
+		prog{"stop ¦ { 1 exit 2 } loop stop 3 ¦ 4", "1 4"},
+		prog{"/p { 1 2 q } def /p load bind pop /q { add } def /p load 2 /add load put /p load bind pop /add { mul } def p", "3"},
+		prog{"/q { sub } def /p { 7 3 q } bind def /q /add load def /p load bind pop /q { mul } def p", "10"},
+	)
 	for _, h := range handlers {
 		for _, l := range loops {
 			progs = append(progs, prog{h + l.text, l.want})
@@ -540,14 +550,26 @@ func tailCallsFamily(budget time.Duration) mc.Family {
 	}
 	return mc.Family{
 		Name: "tail-calls-and-exit-handlers", Items: len(progs), Budget: budget,
-		Rule: fmt.Sprintf("%d programs with a closed-form result: loops made of a procedure that calls itself (directly, through a second procedure, through a helper that returns first) as the last element of its body, for 1..5000 rounds (such a call replaces the finished body and does not nest); names that stand last in a body called 3n times; recursion through if / ifelse for <= 45 rounds; %d loops left by exit (every loop operator, exit inside if / ifelse / exec / a named procedure, nested loops) x %d sets of handlers installed in errordict by the program (none; invalidexit; invalidexit + others; handleerror; a handler that itself exits): exit is not an error and never reaches a handler; 7 programs in which a name is bound to the null object or to a file and hides an older definition; 7 procedures that store into their own body ahead of the point of execution (the last element included); 5 names whose value is an executable name (resolved again when executed); 4 error handlers installed by the program that exit or stop; non-trivial = all", len(progs), len(loops), len(handlers)),
+		Rule: fmt.Sprintf("%d programs with a closed-form result: loops made of a procedure that calls itself (directly, through a second procedure, through a helper that returns first) as the last element of its body, for 1..5000 rounds (such a call replaces the finished body and does not nest); names that stand last in a body called 3n times; recursion through if / ifelse for <= 45 rounds; %d loops left by exit (every loop operator, exit inside if / ifelse / exec / a named procedure, nested loops) x %d sets of handlers installed in errordict by the program (none; invalidexit; invalidexit + others; handleerror; a handler that itself exits): exit is not an error and never reaches a handler; 7 programs in which a name is bound to the null object or to a file and hides an older definition; 7 procedures that store into their own body ahead of the point of execution (the last element included); 5 names whose value is an executable name (resolved again when executed); 4 error handlers installed by the program that exit or stop; 4 sequences of Execute calls on one interpreter in which an earlier program ended by stop; 2 procedures bound twice with a change in between; non-trivial = all", len(progs), len(loops), len(handlers)),
 		Body: func(c *mc.Ctx, item int) mc.Verdict {
 			p := progs[item]
 			intp := postscript.NewInterpreter()
 			intp.MaxOps = 1000000
-			err := intp.ExecuteString(p.text)
+			var err error
+			// " ¦ " separates consecutive Execute calls on the same interpreter (only the last one's error counts)
+			for _, piece := range strings.Split(p.text, " ¦ ") {
+				err = intp.ExecuteString(piece)
+			}
 			c.Step()
 			got := pscmp.ShowStack(intp.Stack)
+			if strings.HasPrefix(p.want, "ERROR ") {
+				if err == nil || !strings.Contains(err.Error(), strings.TrimPrefix(p.want, "ERROR ")) {
+					v := mc.Fail("C03:tail-calls-and-exit-handlers:wrong-result", fmt.Sprintf("program `%s`: error %v, expected %s", p.text, err, p.want))
+					v.Render = p.text
+					return v
+				}
+				return mc.Pass("ok", true)
+			}
 			if err != nil || got != p.want {
 				v := mc.Fail("C03:tail-calls-and-exit-handlers:wrong-result", fmt.Sprintf("program `%s`: error %v, operand stack [%s], expected [%s]", p.text, err, clipS(got), p.want))
 				v.Render = p.text
